@@ -1101,6 +1101,23 @@ class Interp:
         if isinstance(obj, self.ext.PRow):
             if name == "shape":
                 return (Sym(z3.Int("nrows"), "int"),) * obj.lead + (len(obj.values),)
+            if name in ("all", "any", "sum"):
+                def reduce_rows(I, args, kw, _o=obj, _n=name):
+                    ax = kw.get("axis", args[0] if args else None)
+                    if ax not in (1, -1) or _o.lead != 1:
+                        raise Unsupported(f"row-array .{_n} along axis {ax}")
+                    vals = list(_o.values)
+                    if _n == "sum":
+                        r = vals[0]
+                        for v in vals[1:]:
+                            r = v_add(r, v)
+                        return r
+                    r = v_truth(vals[0])
+                    for v in vals[1:]:
+                        r = v_and(r, v_truth(v)) if _n == "all" else v_or(r, v_truth(v))
+                    return r
+
+                return ExternalFn("PRow." + name, reduce_rows)
             raise Unsupported(f"attribute {name} of a row-array")
         if isinstance(obj, self.ext.Arr):
             if name == "astype":
@@ -1148,6 +1165,16 @@ class Interp:
 
     def binop(self, op, a, b):
         ctx = self.ctx
+        PRow = self.ext.PRow
+        if isinstance(a, PRow) or isinstance(b, PRow):
+            # (N, d) array seen at an arbitrary row: element-wise on the d entries, scalars broadcast
+            if isinstance(a, PRow) and isinstance(b, PRow):
+                if len(a.values) != len(b.values):
+                    raise Unsupported("row-arrays of different width")
+                return PRow([self.binop(op, x, y) for x, y in zip(a.values, b.values)], a.lead)
+            if isinstance(a, PRow):
+                return PRow([self.binop(op, x, b) for x in a.values], a.lead)
+            return PRow([self.binop(op, a, y) for y in b.values], b.lead)
         if isinstance(a, self.ext.Arr) or isinstance(b, self.ext.Arr):
             return self.ext.arr_binop(self, lambda x, y: self.binop(op, x, y), a, b)
         if isinstance(op, ast.Add):
@@ -1259,6 +1286,10 @@ class Interp:
         for op, rexpr in zip(e.ops, e.comparators):
             right = self.eval(rexpr, frame)
             r = self.compare(op, left, right)
+            if isinstance(r, self.ext.PRow):
+                if len(e.ops) != 1:
+                    raise Unsupported("chained comparison of row-arrays")
+                return r
             result = v_and(result, r)
             if result is False:
                 return False
@@ -1267,6 +1298,13 @@ class Interp:
 
     def compare(self, op, a, b):
         name = type(op).__name__
+        PRow = self.ext.PRow
+        if (isinstance(a, PRow) or isinstance(b, PRow)) and name in ("Eq", "NotEq", "Lt", "LtE", "Gt", "GtE"):
+            if isinstance(a, PRow) and isinstance(b, PRow):
+                return PRow([v_cmp(name, x, y) for x, y in zip(a.values, b.values)], a.lead)
+            if isinstance(a, PRow):
+                return PRow([v_cmp(name, x, b) for x in a.values], a.lead)
+            return PRow([v_cmp(name, a, y) for y in b.values], b.lead)
         if name in ("In", "NotIn"):
             r = self.contains(b, a)
             return r if name == "In" else v_not(r)
